@@ -86,19 +86,7 @@ func flowCase(c *ctx, kind string, n int) {
 		}
 		close(done)
 	}()
-	last, stable := int64(-1), 0
-	for stable < 40 {
-		select {
-		case <-done:
-			stable = 1 << 30
-		case <-time.After(5 * time.Millisecond):
-			if r := atomic.LoadInt64(&returned); r == last {
-				stable++
-			} else {
-				last, stable = r, 0
-			}
-		}
-	}
+	waitStuckOrDone(done, &returned)
 	r1 := atomic.LoadInt64(&returned)
 	w.ads.mu.Lock()
 	for _, s := range w.ads.streams {
@@ -215,6 +203,40 @@ func goroutineIn(state string, frames ...string) bool {
 		}
 	}
 	return false
+}
+
+// waitStuckOrDone waits until the goroutine that issues the lookups is through (`done`), or provably stuck: a producer is
+// parked in sendRequest's select, which happens only when the request channel is full (read from the goroutine dump, twice,
+// with no lookup returning in between). Three seconds without any progress is the fallback for changed code that gets
+// stuck elsewhere.
+func waitStuckOrDone(done chan struct{}, returned *int64) {
+	last, since := int64(-1), time.Now()
+	stuckSince := time.Time{}
+	for {
+		select {
+		case <-done:
+			return
+		case <-time.After(5 * time.Millisecond):
+		}
+		r := atomic.LoadInt64(returned)
+		if r != last {
+			last, since, stuckSince = r, time.Now(), time.Time{}
+			continue
+		}
+		// no lookup has returned since the last poll
+		if goroutineIn("select", "(*xdsClient).sendRequest") {
+			if stuckSince.IsZero() {
+				stuckSince = time.Now()
+			} else if time.Since(stuckSince) > 150*time.Millisecond {
+				return // a producer has been parked in sendRequest for 150 ms without any lookup returning: the channel is full
+			}
+		} else {
+			stuckSince = time.Time{}
+		}
+		if time.Since(since) > 3*time.Second {
+			return
+		}
+	}
 }
 
 // parkedAck: the receiver is parked at the moment it hands the acknowledgement of a response to the channel; a lookup of
